@@ -62,13 +62,17 @@ def gen_c10(tier, seed):
     idx = 0
     masks = range(8)
     for ci, o in enumerate(combos):
-        for mask in masks:
+        for mask in list(masks) + [8]:
             opts = dict(o, nb=1, ident=1, stop=KILL_POLICY)
             parts = []
-            if mask:
+            if mask and mask < 8:
                 parts.append("CLOSE012 %d" % mask)
-            parts += ["N 0", start_tokens(0, opts), "WR 0 1", "RD 0 1 1", "RD 0 2 1", "K 0", "W 0 -1", "D 0"]
-            cases.append(Case("c10-%d" % idx, " ; ".join(parts), {"opts": o, "mask": mask},
+            parts.append("N 0")
+            if mask == 8:
+                # the handle first goes through a failed start that had created pipes for all three streams
+                parts.append(start_tokens(0, {"prog": "missing", "err": R_PIPE}))
+            parts += [start_tokens(0, opts), "WR 0 1", "RD 0 1 1", "RD 0 2 1", "K 0", "W 0 -1", "D 0"]
+            cases.append(Case("c10-%d" % idx, " ; ".join(parts), {"opts": o, "mask": mask if mask < 8 else 0, "after_failed_start": mask == 8},
                               "c10/%s/%d" % (sorted(o.items()), mask)))
             idx += 1
     return cases
@@ -85,8 +89,10 @@ def judge_c10(case, log):
     idents = [e for e in log.events if e.get("ev") == "ident"]
     if not sops:
         return vs, obs, False
-    s = sops[0]
-    ctx = "mask=%d" % mask
+    s = sops[-1] if case.meta.get("after_failed_start") else sops[0]
+    ctx = "mask=%d%s" % (mask, " after-failed-start" if case.meta.get("after_failed_start") else "")
+    if case.meta.get("after_failed_start"):
+        obs["after_failed_start"] = 1
     if s.get("ret", -1) <= 0:
         V(vs, "C10", "valid-config-start-fails:%s" % ("closed-std" if mask else "all-open"),
           "start with a valid redirect configuration %s returned %s (%s)" % (o, s.get("ret"), ctx))
@@ -205,6 +211,9 @@ def gen_c11(tier, seed):
         parts = ["rlimit %d" % limit]
         if mask:
             parts.append("CLOSE012 %d" % mask)
+        if i % 9 == 4 and limit >= 256:
+            # an earlier start under a lower limit must not influence this one
+            parts = ["rlimit 64", "N 1", start_tokens(1, {"stop": KILL_POLICY}), "K 1", "W 1 -1", "D 1"] + parts
         parts += ["OPENFDS %d %d %d" % (nfds, r.randrange(100000), inclmax), "N 0", start_tokens(0, o), "K 0", "W 0 -1", "D 0"]
         cases.append(Case("c11-%d" % i, " ; ".join(parts), {"opts": o, "limit": limit, "inclmax": inclmax, "mask": mask},
                           "c11/%d/%d/%d/%d" % (limit, nfds, inclmax, i % len(fams))))
@@ -218,8 +227,10 @@ def judge_c11(case, log):
            "limits": set()}
     if common_fail("C11", log, vs):
         return vs, obs, False
-    idents = [e for e in log.events if e.get("ev") == "ident"]
+    idents = [e for e in log.events if e.get("ev") == "ident" and e.get("h") == 0]
     opened = [l for l in log.lines if "openfds" in l]
+    if "N 1" in case.script:
+        obs["limit_raised_between_starts"] = 1
     if opened:
         obs["extra_fds_open_in_parent"] = len(opened[0]["openfds"])
         obs["noncloexec_extra"] = sum(1 for f in opened[0]["openfds"] if not f[1])
@@ -274,7 +285,7 @@ def gen_c03(tier, seed):
     cases = []
     for i in range(n):
         r = rng_for(seed, "c03", i)
-        kind = i % 10
+        kind = i % 11
         parts = []
         meta = {"kind": kind}
         o = {"ident": 1, "stop": KILL_POLICY, "rdiscard": 1}
@@ -353,6 +364,15 @@ def gen_c03(tier, seed):
             meta["deep"] = target
             meta["wd_abs"] = "/"
             parts.append(start_tokens(0, o))
+        elif kind == 10:
+            # fork mode: the child side returns from start with the requested environment and cwd
+            o["fork"] = 1
+            o.pop("argvx", None)
+            meta["args"] = None
+            if r.random() < 0.5:
+                o["wd"] = 1
+                meta["wd_is_child_dir"] = 1
+            parts += ["N 0", start_tokens(0, o)]
         else:
             if kind == 9 and r.random() < 0.5:
                 o["wd"] = 1
@@ -398,8 +418,11 @@ def judge_c03(case, log):
     idt = idents[0]
     # argv
     got_args = idt["arg"][1:]
-    obs["args_compared"] += len(m["args"])
-    if got_args != m["args"]:
+    if m["args"] is None:
+        obs["fork_mode_children"] = obs.get("fork_mode_children", 0) + 1
+    else:
+        obs["args_compared"] += len(m["args"])
+    if m["args"] is not None and got_args != m["args"]:
         n = min(len(got_args), len(m["args"]))
         first = next((i for i in range(n) if got_args[i] != m["args"][i]), n)
         V(vs, "C03", "argv-differs", "argument %d differs (got %d args, expected %d): got %s expected %s" % (
